@@ -118,3 +118,27 @@ impl<T> Default for Versioned<T> {
 
 #[derive(Debug)]
 pub struct VersionMarker;
+
+//------------ Verification hooks --------------------------------------------
+
+/// Hooks for out-of-tree verification harnesses (not part of the API).
+#[cfg(nlnetlabs_domain_verif)]
+impl Version {
+    /// Creates a version from a raw serial number.
+    pub fn verif_new(serial: u32) -> Self {
+        Version(Serial(serial))
+    }
+
+    /// Returns the raw serial number of the version.
+    pub fn verif_into_int(self) -> u32 {
+        self.0.into_int()
+    }
+}
+
+#[cfg(nlnetlabs_domain_verif)]
+impl<T> Versioned<T> {
+    /// Returns the number of stored entries.
+    pub fn verif_len(&self) -> usize {
+        self.data.len()
+    }
+}
